@@ -910,6 +910,29 @@ def decide_call(world, spec, oi, op, q, opts, SolveFailure):
         if opts.get("check_lists"):
             # random fields (and the content / length of random lists) are unspecified after a failing call: take them as the user
             # now sees them; len(), size, indexing and iteration must still agree
+            # ... but a call that fails leaves every list with the length it had (as if the call had never happened)
+            def _lens(node, path, acc):
+                if node["k"] == "o":
+                    for fn, ch in node["fields"].items():
+                        if ch["k"] != "rl":
+                            _lens(ch, path + (fn,), acc)
+                elif node["k"] == "l":
+                    acc.append((path, len(node["elems"])))
+                    for i, ch in enumerate(node["elems"]):
+                        _lens(ch, path + (i,), acc)
+            acc = []
+            _lens(world.shadow, (), acc)
+            with _quiet():
+                for pth, _n in acc:
+                    n0 = before.get(pth + ("size",))          # what the user saw before the call
+                    if not isinstance(n0, int):
+                        continue
+                    try:
+                        n1 = len(world.real(pth))
+                    except Exception:
+                        continue
+                    if n1 != n0:
+                        finding("list_facade", "after the failing call: %s has %d elements, %d before the call" % (R.vname(pth), n1, n0))
             with _quiet():
                 world.sync_shadow_values()
                 lf = list_facade_findings(world)
